@@ -69,7 +69,39 @@ def _depth(t):
     return 0
 
 
+_PCLS = []
+
+
+def _param_classes():
+    """two flax dataclasses with the same fields in opposite declaration orders (`J` / `J_motor`, `motor` / `motor_delay`)"""
+    if not _PCLS:
+        from typing import Any
+
+        import flax.struct as fs
+
+        @fs.dataclass
+        class ParamsA:
+            J: Any
+            J_motor: Any
+            motor: Any
+            motor_delay: Any
+            sub: Any
+
+        @fs.dataclass
+        class ParamsB:
+            sub: Any
+            motor_delay: Any
+            motor: Any
+            J_motor: Any
+            J: Any
+
+        _PCLS.extend([ParamsA, ParamsB])
+    return _PCLS
+
+
 def run(ctx):
+    import dataclasses
+
     import jax
     import jax.numpy as jnp
     import numpy as onp
@@ -169,11 +201,22 @@ def run(ctx):
             optp = _map(lambda x: None if rng.random() < 0.4 else (onp.asarray(x, dtype=onp.float32) + onp.float32(10.75)).astype(onp.float32), basep)
             if rng.random() < 0.3 and isinstance(optp, dict) and optp:  # None standing for a whole subtree
                 optp[rng.choice(sorted(optp))] = None
+            if rng.random() < 0.5:
+                # parameter trees of rex are dataclass pytrees; field names that are prefixes of one another, both declaration orders
+                cls = rng.choice(_param_classes())
+                vals = {f: onp.asarray(rng.uniform(-3, 3), dtype=onp.float32) for f in ("J", "J_motor", "motor", "motor_delay")}
+                bdc = cls(sub=basep, **vals)
+                odc = cls(sub=optp, **{f: (None if rng.random() < 0.5 else (v + onp.float32(10.75)).astype(onp.float32)) for f, v in vals.items()})
+                basep, optp = ({"world": bdc, "k": onp.asarray(1.0, dtype=onp.float32)}, {"world": odc, "k": None}) if rng.random() < 0.5 else (bdc, odc)
+                res.count("extend_dataclass")
             E = base.Extend.init(basep, optp)
             ext = E.apply(optp)
 
             def chk(b, o, e, path="/"):
-                if isinstance(b, dict):
+                if dataclasses.is_dataclass(b):
+                    for f in dataclasses.fields(b):
+                        chk(getattr(b, f.name), None if o is None else getattr(o, f.name), getattr(e, f.name), path + f.name + "/")
+                elif isinstance(b, dict):
                     for k in b:
                         chk(b[k], None if o is None else o[k], e[k], path + k + "/")
                 elif isinstance(b, (list, tuple)):
